@@ -49,6 +49,32 @@ def shapes(v):
     yield "nested", ("prog", "e", v, ("uid",), ("if", ("cmp", ("id", "f"), "not in", ("tup", (("tup", (L, ("id", "g"))), L))), T, F)), {"uid": 1, "f": v, "g": 2}
 
 
+HELPER_NAMES = ["partial", "str", "map", "deterministic_choice", "ExperimentConditionalFailedError", "choose_experiment_variant", "kwargs", "self", "print", "exec",
+                "__import__", "globals", "code_holder", "ast", "fn_name", "hashlib", "PythonCodeGen", "parse_source", "accumulate", "bisect", "choices", "isfinite"]
+
+
+def name_units(acc):
+    """the experiment's NAME is a token too: naming it like something the evaluation skeleton uses must not change
+    what is executed (compared with the same experiment under a neutral name)"""
+    body = ("uid",), ("if", ("cmp", ("id", "f"), "==", ("lit", 1)), ("ret", (("A", "1"), ("B", "1"))), None)
+    envs = [{"uid": 1, "f": 1}, {"uid": 2, "f": 0}]
+    base = [run_profiled(rp.render(("prog", "neutral_name", "s", *body)), e) for e in envs]
+    for nm in HELPER_NAMES:
+        a = ("prog", nm, "s", *body)
+        text = rp.render(a)
+        if rp.classify(text) != ("accept", a):
+            continue
+        acc.add("programs")
+        for e, (bout, bseq) in zip(envs, base):
+            acc.add("evaluations")
+            out, seq = run_profiled(text, e)
+            if out != bout or not seq <= bseq | {nm}:
+                acc.violation({"kind": "inert:expname", "text": text, "literal": nm, "position": "expname", "quote": '"', "env": enc(e), "sub": "outcome" if out != bout else "callees",
+                               "observed": repr(out) if out != bout else short(repr(sorted(seq - bseq)), 200),
+                               "why": f"an experiment merely NAMED {nm!r} behaves differently from the same experiment under a neutral name ({bout})"})  # fmt: skip
+                break
+
+
 def gen_source(text, expose):
     """generated Python source through the code-generation class (fast) or the public entry point"""
     try:
@@ -120,6 +146,9 @@ def baseline(pos, q, expose):
 
 def _work(units):
     acc = progcheck.Acc()
+    if units and units[0] == "__names__":
+        name_units(acc)
+        return acc.out()
     calls = []
     setattr(builtins, S, lambda *a, **k: calls.append(1) or "")
     try:
@@ -228,6 +257,7 @@ def run(res, tier):
     units = list(dict.fromkeys(PAYLOADS + long_payloads(tier) + harvested_payloads() + list(strings(k))))
     for w in pmap(_work, permuted(units, "c13"), chunk=8):
         res.merge_worker(w)
+    res.merge_worker(_work(["__names__"]))
     res.set("states", res.cov.get("programs", 0))
     res.set("transitions", res.cov.get("evaluations", 0))
     res.set("traces_validated_against_impl", res.cov.get("evaluations", 0))
@@ -236,6 +266,10 @@ def run(res, tier):
 
 
 def replay(data):
+    if data.get("position") == "expname":
+        r = _work(["__names__"])
+        bad = [v for v in r["viol"] if v["literal"] == data["literal"]]
+        return bool(bad), (bad[0]["why"] if bad else "behaves like the neutral name")
     r = _work([data["literal"]])
     bad = [v for v in r["viol"] if v.get("position") == data.get("position") and v.get("quote") == data.get("quote")]
     return bool(bad), (bad[0]["sub"] + ": " + bad[0]["why"] if bad else "no longer fails")
